@@ -34,7 +34,8 @@ theorem identify_guards :
        "if peerInfo.BroadcastAddress == \"\" || peerInfo.TCPPort == 0 || peerInfo.HTTPPort == 0 || peerInfo.Version == \"\""] := by
   decide
 
-/-- the command words are the byte strings the model compares with -/
+/-- the command words are the byte strings the model compares with (Lean literal against Lean literal: a sanity
+check of the byte lists only; the tie to the SOURCE text is `Nsq.Tie.RegistryProto.command_bytes_regenerated`) -/
 theorem command_bytes :
     "PING".toList.map (·.toNat) = cmdPING.map (·.toNat) ∧
     "IDENTIFY".toList.map (·.toNat) = cmdIDENTIFY.map (·.toNat) ∧
